@@ -283,3 +283,38 @@ fn c16_check_kinds_and_scopes() {
         _ => {}
     }
 }
+
+/// two features in one block: the declared version is the maximum of what each needs
+#[kani::proof]
+#[kani::stub(regex::Regex::new, crate::kh_support::regex_new_stub)]
+#[kani::stub(regex::Regex::is_match, crate::kh_support::regex_is_match_stub)]
+#[kani::unwind(4)]
+fn c16_two_features_maximum() {
+    let sel: u8 = kani::any();
+    let scope = Scope::PublicKey(kani::any());
+    match sel {
+        // a 3.1 operator in a rule and a 3.3 term in a fact
+        0 => {
+            let e = Expression { ops: vec![Op::Value(Term::Variable(0)), Op::Value(Term::Integer(kani::any())), Op::Binary(Binary::BitwiseXor)] };
+            decide(vec![Fact { predicate: pred1(1, Term::Null) }], vec![plain_rule(vec![e], vec![])], vec![], vec![], V33)
+        }
+        // a scope (3.1) on a rule and check all (3.1)
+        1 => decide(vec![], vec![plain_rule(vec![], vec![scope])], vec![Check { queries: vec![plain_rule(vec![], vec![])], kind: CheckKind::All }], vec![], V31),
+        // 3.1 operator only in the second expression of a rule, plain 3.0 elsewhere
+        2 => {
+            let e0 = Expression { ops: vec![Op::Value(Term::Variable(0)), Op::Value(Term::Integer(kani::any())), Op::Binary(Binary::LessThan)] };
+            let e1 = Expression { ops: vec![Op::Value(Term::Variable(0)), Op::Value(Term::Integer(kani::any())), Op::Binary(Binary::NotEqual)] };
+            decide(vec![Fact { predicate: pred1(1, Term::Integer(kani::any())) }], vec![plain_rule(vec![e0, e1], vec![])], vec![], vec![], V31)
+        }
+        // a closure (3.3) in a check and a block scope (3.1)
+        3 => {
+            let body = vec![Op::Value(Term::Variable(1))];
+            let e = Expression { ops: vec![Op::Value(Term::Variable(0)), Op::Closure(vec![1], body), Op::Binary(Binary::Any)] };
+            let q = plain_rule(vec![e], vec![]);
+            decide(vec![], vec![], vec![Check { queries: vec![q], kind: CheckKind::One }], vec![scope], V33)
+        }
+        // second term of a two-term fact
+        4 => decide(vec![Fact { predicate: Predicate { name: 1, terms: vec![Term::Integer(kani::any()), Term::Array(vec![Term::Bool(kani::any())])] } }], vec![], vec![], vec![], V33),
+        _ => {}
+    }
+}
